@@ -80,3 +80,300 @@ package protocol
 //@ ensures err == nil ==> result != nil && len(result.Payload) <= 16384
 
 //@ census[C07] io.Writer.Write in (*FrameWriter).Write
+
+//@ ghost var c05sleepEnd int
+
+// ---- C05: every decoder is total: no panic on any input, allocation bounded by the input length (+4 KiB
+// for the fixed-size lists whose one-byte count is read before their elements) ----
+
+//@ func DecodePeerHello
+//@ prop C05
+//@ check bounds alloc
+//@ alloc-limit len(buf) + 4096
+//@ loop 0 invariant 0 <= r.offset && r.offset <= len(r.buf)
+
+//@ func DecodeStreamOpen
+//@ prop C05
+//@ check bounds alloc
+//@ alloc-limit len(buf) + 4096
+
+//@ func DecodeStreamOpenAck
+//@ prop C05
+//@ check bounds alloc
+//@ alloc-limit len(buf) + 4096
+
+//@ func DecodeStreamOpenErr
+//@ prop C05
+//@ check bounds alloc
+//@ alloc-limit len(buf) + 4096
+
+//@ func DecodeStreamReset
+//@ prop C05
+//@ check bounds alloc
+//@ alloc-limit len(buf) + 4096
+
+//@ func DecodeKeepalive
+//@ prop C05
+//@ check bounds alloc
+//@ alloc-limit len(buf) + 4096
+
+//@ func DecodeDomainPrefix
+//@ prop C05
+//@ check bounds alloc
+//@ alloc-limit len(prefix) + 4096
+
+//@ func DecodeForwardKey
+//@ prop C05
+//@ check bounds alloc
+//@ alloc-limit len(prefix) + 4096
+
+//@ func DecodeForwardKeyAndTarget
+//@ prop C05
+//@ check bounds alloc
+//@ alloc-limit len(prefix) + 4096
+
+//@ func DecodeAgentPrefix
+//@ prop C05
+//@ check bounds alloc
+//@ alloc-limit len(prefix) + 4096
+
+//@ func DecodeRouteAdvertise
+//@ prop C05
+//@ check bounds alloc
+//@ alloc-limit len(buf) + 8192
+//@ loop 0 invariant 0 <= i && i <= routeCount && 0 <= rd.offset && rd.offset <= len(buf) && rd.buf == buf && len(ra.Routes) == routeCount
+
+//@ func DecodeRouteWithdraw
+//@ prop C05
+//@ check bounds alloc
+//@ alloc-limit len(buf) + 8192
+//@ loop 0 invariant 0 <= i && i <= routeCount && 0 <= rd.offset && rd.offset <= len(buf) && rd.buf == buf && len(rw.Routes) == routeCount
+
+//@ func DecodeEncryptedData
+//@ prop C05
+//@ check bounds alloc
+//@ alloc-limit len(buf) + 4096
+//@ ensures err == nil ==> result0 != nil && 3 <= result1 && result1 <= len(buf) && len(result0.Data) == result1 - 3
+
+//@ func DecodeNodeInfo
+//@ prop C05
+//@ check bounds alloc
+//@ alloc-limit len(buf) + 4096
+//@ loop 0 invariant 0 <= i && i <= ipCount && len(info.IPAddresses) == ipCount && 0 <= r.offset && r.offset <= len(r.buf)
+//@ loop 1 invariant 0 <= r.offset && r.offset <= len(r.buf)
+//@ loop 2 invariant 0 <= r.offset && r.offset <= len(r.buf)
+//@ loop 3 invariant 0 <= r.offset && r.offset <= len(r.buf)
+
+//@ func DecodePath
+//@ prop C05
+//@ check bounds alloc
+//@ alloc-limit len(buf) + 4096
+
+//@ func DecodeNodeInfoAdvertise
+//@ prop C05
+//@ check bounds alloc
+//@ alloc-limit len(buf) + 4096
+
+//@ func DecodeControlRequest
+//@ prop C05
+//@ check bounds alloc
+//@ alloc-limit len(buf) + 4096
+
+//@ func DecodeControlResponse
+//@ prop C05
+//@ check bounds alloc
+//@ alloc-limit len(buf) + 4096
+
+//@ func DecodeUDPOpen
+//@ prop C05
+//@ check bounds alloc
+//@ alloc-limit len(buf) + 4096
+
+//@ func DecodeUDPOpenAck
+//@ prop C05
+//@ check bounds alloc
+//@ alloc-limit len(buf) + 4096
+
+//@ func DecodeUDPOpenErr
+//@ prop C05
+//@ check bounds alloc
+//@ alloc-limit len(buf) + 4096
+
+//@ func DecodeUDPDatagram
+//@ prop C05
+//@ check bounds alloc
+//@ alloc-limit len(buf) + 4096
+
+//@ func DecodeUDPClose
+//@ prop C05
+//@ check bounds alloc
+//@ alloc-limit len(buf) + 4096
+
+//@ func DecodeICMPOpen
+//@ prop C05
+//@ check bounds alloc
+//@ alloc-limit len(buf) + 4096
+
+//@ func DecodeICMPOpenAck
+//@ prop C05
+//@ check bounds alloc
+//@ alloc-limit len(buf) + 4096
+
+//@ func DecodeICMPOpenErr
+//@ prop C05
+//@ check bounds alloc
+//@ alloc-limit len(buf) + 4096
+
+//@ func DecodeICMPEcho
+//@ prop C05
+//@ check bounds alloc
+//@ alloc-limit len(buf) + 4096
+
+//@ func DecodeICMPClose
+//@ prop C05
+//@ check bounds alloc
+//@ alloc-limit len(buf) + 4096
+
+//@ func DecodeSleepCommand
+//@ prop C05
+//@ check bounds alloc
+//@ alloc-limit len(buf) + 4096
+//@ ensures err == nil ==> result != nil && len(buf) >= 97 + 16 * len(result.SeenBy)
+
+//@ func DecodeWakeCommand
+//@ prop C05
+//@ check bounds alloc
+//@ alloc-limit len(buf) + 4096
+//@ ensures err == nil ==> result != nil && len(buf) >= 97 + 16 * len(result.SeenBy)
+
+//@ func DecodeQueuedState
+//@ prop C05
+//@ check bounds alloc
+//@ alloc-limit len(buf) + 4096
+//@ modifies c05sleepEnd
+//@ after call readBool#0 set c05sleepEnd = -1
+//@ after call DecodeSleepCommand set c05sleepEnd = ite($ret1 == nil, r.offset + 97 + 16 * len($ret0.SeenBy), -1)
+//@ at call readBool#1 assert c05sleepEnd == -1 || r.offset == c05sleepEnd
+//@ note the guard above: after an embedded sleep command the reader stands exactly behind its 97+16*len(SeenBy) wire bytes
+//@ loop 0 invariant 0 <= r.offset && r.offset <= len(r.buf) && r.buf == buf
+//@ loop 1 invariant 0 <= r.offset && r.offset <= len(r.buf) && r.buf == buf
+//@ loop 2 invariant 0 <= r.offset && r.offset <= len(r.buf) && r.buf == buf
+
+// ---- C05: the bounds-checked reader. Type invariant: 0 <= offset <= len(buf). Every read either
+// succeeds (no earlier error, enough bytes left), returns exactly the bytes at the old offset and
+// advances by their count, or records an error, returns the zero value and leaves the offset alone. ----
+
+//@ func newBufferReader
+//@ prop C05
+//@ ensures result != nil && result.buf == buf && result.offset == 0 && result.err == nil && !old(allocated(result))
+
+//@ func (*bufferReader).remaining
+//@ prop C05
+//@ ensures result == len(r.buf) - r.offset
+
+//@ func (*bufferReader).setError
+//@ prop C05
+//@ modifies r.err
+//@ ensures r.err != nil
+
+//@ func (*bufferReader).readUint8
+//@ prop C05
+//@ check bounds
+//@ requires 0 <= r.offset && r.offset <= len(r.buf)
+//@ modifies r.offset, r.err
+//@ ensures 0 <= r.offset && r.offset <= len(r.buf)
+//@ ensures old(r.err) == nil && old(r.offset) + 1 <= len(r.buf) ==> r.err == nil && r.offset == old(r.offset) + 1 && result == r.buf[old(r.offset)]
+//@ ensures !(old(r.err) == nil && old(r.offset) + 1 <= len(r.buf)) ==> r.err != nil && r.offset == old(r.offset)
+
+//@ func (*bufferReader).readUint16
+//@ prop C05
+//@ check bounds
+//@ requires 0 <= r.offset && r.offset <= len(r.buf)
+//@ modifies r.offset, r.err
+//@ ensures 0 <= r.offset && r.offset <= len(r.buf)
+//@ ensures old(r.err) == nil && old(r.offset) + 2 <= len(r.buf) ==> r.err == nil && r.offset == old(r.offset) + 2 && result == be16(r.buf, old(r.offset))
+//@ ensures !(old(r.err) == nil && old(r.offset) + 2 <= len(r.buf)) ==> r.err != nil && r.offset == old(r.offset)
+
+//@ func (*bufferReader).readUint32
+//@ prop C05
+//@ check bounds
+//@ requires 0 <= r.offset && r.offset <= len(r.buf)
+//@ modifies r.offset, r.err
+//@ ensures 0 <= r.offset && r.offset <= len(r.buf)
+//@ ensures old(r.err) == nil && old(r.offset) + 4 <= len(r.buf) ==> r.err == nil && r.offset == old(r.offset) + 4 && result == be32(r.buf, old(r.offset))
+//@ ensures !(old(r.err) == nil && old(r.offset) + 4 <= len(r.buf)) ==> r.err != nil && r.offset == old(r.offset)
+
+//@ func (*bufferReader).readUint64
+//@ prop C05
+//@ check bounds
+//@ requires 0 <= r.offset && r.offset <= len(r.buf)
+//@ modifies r.offset, r.err
+//@ ensures 0 <= r.offset && r.offset <= len(r.buf)
+//@ ensures old(r.err) == nil && old(r.offset) + 8 <= len(r.buf) ==> r.err == nil && r.offset == old(r.offset) + 8 && result == be64(r.buf, old(r.offset))
+//@ ensures !(old(r.err) == nil && old(r.offset) + 8 <= len(r.buf)) ==> r.err != nil && r.offset == old(r.offset)
+
+//@ func (*bufferReader).readBool
+//@ prop C05
+//@ check bounds
+//@ requires 0 <= r.offset && r.offset <= len(r.buf)
+//@ modifies r.offset, r.err
+//@ ensures 0 <= r.offset && r.offset <= len(r.buf)
+//@ ensures old(r.err) == nil && old(r.offset) + 1 <= len(r.buf) ==> r.err == nil && r.offset == old(r.offset) + 1 && (result <==> r.buf[old(r.offset)] != 0)
+//@ ensures !(old(r.err) == nil && old(r.offset) + 1 <= len(r.buf)) ==> r.err != nil && r.offset == old(r.offset)
+
+//@ func (*bufferReader).readAgentID
+//@ prop C05
+//@ check bounds
+//@ requires 0 <= r.offset && r.offset <= len(r.buf)
+//@ modifies r.offset, r.err
+//@ ensures 0 <= r.offset && r.offset <= len(r.buf)
+//@ ensures old(r.err) == nil && old(r.offset) + 16 <= len(r.buf) ==> r.err == nil && r.offset == old(r.offset) + 16 && forall i in 0..16: result[i] == r.buf[old(r.offset) + i]
+//@ ensures !(old(r.err) == nil && old(r.offset) + 16 <= len(r.buf)) ==> r.err != nil && r.offset == old(r.offset)
+
+//@ func (*bufferReader).readEphemeralKey
+//@ prop C05
+//@ check bounds
+//@ requires 0 <= r.offset && r.offset <= len(r.buf)
+//@ modifies r.offset, r.err
+//@ ensures 0 <= r.offset && r.offset <= len(r.buf)
+//@ ensures old(r.err) == nil && old(r.offset) + 32 <= len(r.buf) ==> r.err == nil && r.offset == old(r.offset) + 32 && forall i in 0..32: result[i] == r.buf[old(r.offset) + i]
+//@ ensures !(old(r.err) == nil && old(r.offset) + 32 <= len(r.buf)) ==> r.err != nil && r.offset == old(r.offset)
+
+//@ func (*bufferReader).readBytes
+//@ prop C05
+//@ check bounds alloc
+//@ alloc-limit len(r.buf)
+//@ requires 0 <= r.offset && r.offset <= len(r.buf) && n >= 0
+//@ modifies r.offset, r.err
+//@ ensures 0 <= r.offset && r.offset <= len(r.buf)
+//@ ensures old(r.err) == nil && old(r.offset) + n <= len(r.buf) ==> r.err == nil && r.offset == old(r.offset) + n && len(result) == n && forall i in 0..n: result[i] == r.buf[old(r.offset) + i]
+//@ ensures !(old(r.err) == nil && old(r.offset) + n <= len(r.buf)) ==> r.err != nil && r.offset == old(r.offset) && len(result) == 0
+
+//@ func (*bufferReader).readString
+//@ prop C05
+//@ check bounds
+//@ requires 0 <= r.offset && r.offset <= len(r.buf)
+//@ modifies r.offset, r.err
+//@ ensures 0 <= r.offset && r.offset <= len(r.buf)
+//@ ensures old(r.err) == nil && old(r.offset) + 1 <= len(r.buf) && old(r.offset) + 1 + r.buf[old(r.offset)] <= len(r.buf) ==> r.err == nil && r.offset == old(r.offset) + 1 + r.buf[old(r.offset)] && len(result) == r.buf[old(r.offset)] && forall i in 0..len(result): result[i] == r.buf[old(r.offset) + 1 + i]
+//@ ensures !(old(r.err) == nil && old(r.offset) + 1 <= len(r.buf) && old(r.offset) + 1 + r.buf[old(r.offset)] <= len(r.buf)) ==> r.err != nil && len(result) == 0
+
+//@ func (*bufferReader).readAgentIDs
+//@ prop C05
+//@ check bounds alloc
+//@ alloc-limit 4080
+//@ requires 0 <= r.offset && r.offset <= len(r.buf)
+//@ modifies r.offset, r.err
+//@ loop 0 invariant 0 <= i && i <= count && r.err == nil && 0 <= r.offset && r.offset == old(r.offset) + 1 + 16 * i && r.offset <= len(r.buf) && len(ids) == count
+//@ ensures 0 <= r.offset && r.offset <= len(r.buf)
+//@ ensures old(r.err) == nil && old(r.offset) + 1 <= len(r.buf) && old(r.offset) + 1 + 16 * r.buf[old(r.offset)] <= len(r.buf) ==> r.err == nil && len(result) == r.buf[old(r.offset)] && r.offset == old(r.offset) + 1 + 16 * len(result)
+//@ ensures !(old(r.err) == nil && old(r.offset) + 1 <= len(r.buf) && old(r.offset) + 1 + 16 * r.buf[old(r.offset)] <= len(r.buf)) ==> r.err != nil && len(result) == 0
+
+//@ func addressLength
+//@ prop C05
+//@ ensures err == nil ==> (addrType == AddrTypeIPv4 && result == 4) || (addrType == AddrTypeIPv6 && result == 16) || (addrType == AddrTypeDomain && result == 1 + domainLenByte)
+//@ ensures err == nil ==> result >= 1 && result <= 256
+
+//@ func prefixLength
+//@ prop C05
+//@ ensures result >= 0 && result <= 256
